@@ -482,18 +482,27 @@ def queryInfoFrom (skip : Bool) (c : Catalog) (ctes : List Name) (qi : QueryInfo
 def queryInfo (skip : Bool) (c : Catalog) (ctes : List Name) (items : List Item) : Option QueryInfo :=
   queryInfoFrom skip c ctes ⟨0, [], 0, 0⟩ items
 
+/-- `cte_name_captures_table` (a9036e5): some qualified table reference ends in a name that is also a CTE name of
+the query — after the cut it would be read as that CTE, so the query is not pushed down whole -/
+def cteCaptures (ctes : List Name) (items : List Item) : Bool :=
+  items.any fun
+    | .table parts => decide (parts.length > 1) && (ctes.map lower).contains (lower (parts.getLastD []))
+    | _ => false
+
 /-- `QueryPlanner.check_single_integration`: the integration the whole query is sent to -/
 def checkSingle (skip : Bool) (c : Catalog) (ctes : List Name) (items : List Item) : Option Name :=
   match queryInfo skip c ctes items with
   | some ⟨0, [i], _, 0⟩ =>
-    if i ≠ n!"files" ∧ i ≠ n!"views" ∧ c.classType i ≠ some n!"api" then some i else none
+    if i ≠ n!"files" ∧ i ≠ n!"views" ∧ c.classType i ≠ some n!"api" ∧ cteCaptures ctes items = false then some i
+    else none
   | _ => none
 
 /-- `PlanJoin.check_single_integration` (no user-function test) -/
 def checkSingleJoin (skip : Bool) (c : Catalog) (ctes : List Name) (items : List Item) : Option Name :=
   match queryInfo skip c ctes items with
   | some ⟨0, [i], _, _⟩ =>
-    if i ≠ n!"files" ∧ i ≠ n!"views" ∧ c.classType i ≠ some n!"api" then some i else none
+    if i ≠ n!"files" ∧ i ≠ n!"views" ∧ c.classType i ≠ some n!"api" ∧ cteCaptures ctes items = false then some i
+    else none
   | _ => none
 
 inductive Step
@@ -519,7 +528,9 @@ structure TRef where
 
 mutual
 inductive Sel
-  | mk (tabs : List TRef) (cols : List (List Name)) (subs : Sels)
+  /-- `ctes`: the bodies of the WITH clause; a CTE body is a scope of its own (it does not see the select it is
+  attached to); a reference to the CTE is a table reference by its bare name, its columns come from the schema -/
+  | mk (tabs : List TRef) (cols : List (List Name)) (subs : Sels) (ctes : Sels)
 inductive Sels
   | nil
   | cons (s : Sel) (ss : Sels)
@@ -592,7 +603,8 @@ def optAll {α β} (f : α → Option β) : List α → Option (List β)
 mutual
 /-- resolution of every column reference of the query, in order -/
 def resolveAll (fed : Bool) (db : Name) (sch : Schema) (chain : List (List Inst)) : Sel → List Res
-  | .mk tabs cols subs =>
+  | .mk tabs cols subs ctes =>
+    resolveAlls fed db sch [] ctes ++
     match optAll (if fed then instFed db else instLocal db) tabs with
     | none => [.badTable]
     | some sc =>
@@ -608,9 +620,9 @@ def cut (db : Name) (names : List Name) (isTab : Bool) (parts : List Name) : Lis
 
 mutual
 def stripSel (db : Name) (names : List Name) : Sel → Sel
-  | .mk tabs cols subs =>
+  | .mk tabs cols subs ctes =>
     .mk (tabs.map fun t => { t with parts := cut db names true t.parts }) (cols.map (cut db names false))
-      (stripSels db names subs)
+      (stripSels db names subs) (stripSels db names ctes)
 def stripSels (db : Name) (names : List Name) : Sels → Sels
   | .nil => .nil
   | .cons s ss => .cons (stripSel db names s) (stripSels db names ss)
@@ -632,16 +644,30 @@ def okCol (db : Name) (names : List Name) (r : List Name) : Bool :=
 
 mutual
 def okSel (db : Name) (names : List Name) : Sel → Bool
-  | .mk tabs cols subs => tabs.all (okTab db) && cols.all (okCol db names) && okSels db names subs
+  | .mk tabs cols subs ctes =>
+    tabs.all (okTab db) && cols.all (okCol db names) && okSels db names subs && okSels db names ctes
 def okSels (db : Name) (names : List Name) : Sels → Bool
   | .nil => true
   | .cons s ss => okSel db names s && okSels db names ss
 end
 
+/-- the name by which a table reference is referred to in its scope, lower-cased -/
+def localName (t : TRef) : Option Name :=
+  (match t.alias with
+   | some a => some a
+   | none => t.parts.getLast?).map lower
+
+/-- what it means for the pushed-down query to keep the meaning of a reference: whenever the original reference
+denotes something (or is ambiguous), the stripped one denotes exactly the same; nothing is claimed for a reference
+that denotes nothing in the original -/
+def Res.keeps (orig pushed : Res) : Prop := orig = .notFound ∨ pushed = orig
+
 mutual
-/-- lower-cased aliases of the query (what the repaired planner collects; CTE names would be added to it) -/
+/-- the `names` the planner hands to the cut (since 1ea1207 / bd15793): for every table reference of the whole
+query, CTE bodies included, its lower-cased alias or — when it has none — its own (last) name; a reference to a
+CTE is such an unaliased table reference, so used CTE names are in it -/
 def aliasesOf : Sel → List Name
-  | .mk tabs _ subs => tabs.filterMap (fun t => t.alias.map lower) ++ aliasesOfs subs
+  | .mk tabs _ subs ctes => tabs.filterMap localName ++ aliasesOfs subs ++ aliasesOfs ctes
 def aliasesOfs : Sels → List Name
   | .nil => []
   | .cons s ss => aliasesOf s ++ aliasesOfs ss
